@@ -17,7 +17,7 @@ WORKERS = int(os.environ.get("VERIF_WORKERS", "8"))
 
 
 class Slice:
-    def __init__(self, name, terminals, ops, maxnodes, lits=(), zeros=(), idx=(10, 11), maxrank=2, maxdim=2, finalops=(), gdim=2, nenv=2, complex_env=False, small=False, simulate=None, depth=None):
+    def __init__(self, name, terminals, ops, maxnodes, lits=(), zeros=(), idx=(10, 11), maxrank=2, maxdim=2, finalops=(), gdim=2, nenv=2, complex_env=False, small=False, simulate=None, depth=None, square_gram=(), tiny=False, levels=(), only_final=False, mikinds=("fixed", "name", "slice")):
         self.name = name
         self.terminals = terminals
         self.ops = set(ops)
@@ -34,7 +34,21 @@ class Slice:
         self.small = small
         self.simulate = simulate
         self.depth = depth
+        self.square_gram = tuple(square_gram)
+        self.tiny = tiny
+        self.levels = [set(l) for l in levels]
+        self.only_final = only_final
+        self.mikinds = tuple(mikinds)
+        for l in self.levels:
+            self.ops |= l - self.finalops
 
+
+# messages of deliberate refusals of degenerate but well-typed inputs (each cites the raising site)
+REFUSALS = [
+    "Cannot take cofactor of zero matrix",  # tensoralgebra.py Cofactor.__init__
+    "Division by zero!",  # algebra.py Division.__new__, tensoralgebra.py Inverse.__new__
+    "Division by zero, cannot raise 0 to a negative power",  # algebra.py Power.__new__
+]
 
 LIT = {
     "one": ("one", 1),
@@ -47,7 +61,7 @@ LIT = {
 }
 
 
-def run_slices(ctx, sls, pid, on_mismatch=None, accept=None, timeout=1500, jobs=None):
+def run_slices(ctx, sls, pid, on_mismatch=None, accept=None, timeout=1500, jobs=None, post=None):
     """TLC runs of all slices concurrently (each JVM has a fixed start-up cost), replay in order."""
     from concurrent.futures import ThreadPoolExecutor
 
@@ -57,7 +71,7 @@ def run_slices(ctx, sls, pid, on_mismatch=None, accept=None, timeout=1500, jobs=
         futs = [ex.submit(_tlc_phase, ctx.seed, sl, timeout, per) for sl in sls]
         for sl, fut in zip(sls, futs):
             pool, res = fut.result()
-            _replay_phase(ctx, sl, pid, pool, res, on_mismatch, accept)
+            _replay_phase(ctx, sl, pid, pool, res, on_mismatch, accept, post)
 
 
 def run_slice(ctx, sl, pid, on_mismatch=None, accept=None, timeout=1500):
@@ -68,10 +82,10 @@ def run_slice(ctx, sl, pid, on_mismatch=None, accept=None, timeout=1500):
 
 
 def _tlc_phase(seed, sl, timeout, workers):
-    pool = Pool(sl.terminals, nenv=sl.nenv, seed=seed + hash_name(sl.name), complex_env=sl.complex_env, small=sl.small)
+    pool = Pool(sl.terminals, nenv=sl.nenv, seed=seed + hash_name(sl.name), complex_env=sl.complex_env, small=sl.small, square_gram=sl.square_gram, tiny=sl.tiny)
     name = "MC_" + sl.name.replace("-", "_")
-    mc = replay.mc_module(name, pool, sl.lits, sl.zeros, sl.idx, sl.ops | sl.finalops, sl.maxnodes, sl.maxrank, sl.maxdim, sl.finalops)
-    cfg = replay.mc_cfg(pool, sl.maxnodes, sl.maxrank, sl.maxdim)
+    mc = replay.mc_module(name, pool, sl.lits, sl.zeros, sl.idx, sl.ops | sl.finalops, sl.maxnodes, sl.maxrank, sl.maxdim, sl.finalops, sl.levels)
+    cfg = replay.mc_cfg(pool, sl.maxnodes, sl.maxrank, sl.maxdim, final_only=sl.only_final, mikinds=sl.mikinds)
     kw = {}
     if sl.simulate:
         kw = dict(simulate=f"num={max(1, sl.simulate // workers)}", depth=sl.depth or (sl.maxnodes + 1), seed=seed + 1)
@@ -79,7 +93,7 @@ def _tlc_phase(seed, sl, timeout, workers):
     return pool, res
 
 
-def _replay_phase(ctx, sl, pid, pool, res, on_mismatch, accept):
+def _replay_phase(ctx, sl, pid, pool, res, on_mismatch, accept, post=None):
     ctx.add_tlc(res)
     if res.outcome != "ok":
         tail = "\n".join(res.stdout.splitlines()[-30:])
@@ -95,8 +109,16 @@ def _replay_phase(ctx, sl, pid, pool, res, on_mismatch, accept):
         key = repr(rec["prog"])
         if key in seen:
             continue
+        if sl.only_final and rec["prog"][-1]["op"] not in sl.finalops:
+            continue
         seen.add(key)
         status, detail = replay.compare(w, rec)
+        if post is not None and status in ("ok", "undefined"):
+            objs, err = replay.build(w, rec["prog"])
+            if err is None:
+                r = post(ctx, rec, objs[-1], w)
+                if r is not None:
+                    status, detail = "mismatch:" + r[0], r[1]
         stats[status] = stats.get(status, 0) + 1
         ctx.traces(1)
         ctx.evaluated(sum(len(t) for t in rec["val"]))
@@ -111,6 +133,11 @@ def _replay_phase(ctx, sl, pid, pool, res, on_mismatch, accept):
         elif status in ("refused-undefined", "prefix-refused"):
             ctx.count(status.replace("-", "_"))
         else:
+            if status == "mismatch:raise" and any(r in (detail or "") for r in REFUSALS):
+                # ufl deliberately refuses this (syntactically degenerate) input: no object is
+                # built, so no shape/index/value can be wrong
+                ctx.count("refused_by_design")
+                continue
             if accept and accept(rec, status, detail, w):
                 ctx.count("accepted_" + status.split(":")[1])
                 continue
